@@ -5,10 +5,14 @@
    root or on any nested group) completed without the process being terminated; [Error n] :
    reg called Fatalf (os.Exit(1)) on the conflicting name n.
    [returned_log k ops] : every (namespace, handler, name) such that a registration of [ops]
-   returned [name] for [handler]. *)
+   returned [name] for [handler].
+   Model/RouteWire.v: [wire p s n] = what the serving peer's binding sees when the caller asks
+   for [n] in namespace [s] over the wire protocol [p] (Pack on one side, Unpack on the other);
+   [dispatch_wire] = that, then the lookup. *)
 From Coq Require Import Strings.String Strings.Byte.
 From Coq Require Import List Arith NArith Bool Lia.
 From Verif Require Import Base.Bytes Model.Mapper Model.Router Proofs.MapperProofs Proofs.RouterProofs.
+From Verif Require Import Model.RouteWire Proofs.RouteWireProofs.
 Import ListNotations.
 
 (* ---- name mapping ---- *)
@@ -204,6 +208,130 @@ Theorem C10_unknown_via_group_prefix_refuted :
 Proof. exact unknown_via_group_prefix_ignored. Qed.
 Print Assumptions C10_unknown_via_group_prefix_refuted.
 
+(* ---- from the name a caller asks for to the name that is looked up: the wire protocols ---- *)
+
+(* Every shipped protocol (raw, json, protobuf, thrift, http, websocket json / protobuf)
+   carries a plain name - letters, digits, '_' '/' '.' '-', at most 255 bytes, no leading
+   "//" - byte for byte (httproto can only carry a CALL). *)
+Theorem C10_wire_plain_exact : forall p s n,
+  wire_plain n = true -> (p = PHttp -> s = CALL) -> wire p s n = WSeen n.
+Proof. exact wire_plain_exact. Qed.
+Print Assumptions C10_wire_plain_exact.
+
+(* ... so, after any successful registration sequence, asking for a plain name over any
+   protocol runs handler h iff a registration returned exactly that name for h. *)
+Theorem C10_dispatch_over_wire_exact : forall k ops r lg p s n h,
+  run k init ops = Ok (r, lg) ->
+  wire_plain n = true -> (p = PHttp -> s = CALL) -> n <> [] ->
+  (dispatch_wire p r s n = WDispatched (DRun h false) <-> In (s, h, n) (returned_log k ops)).
+Proof. exact dispatch_wire_plain_exact. Qed.
+Print Assumptions C10_dispatch_over_wire_exact.
+
+(* The default (HTTP) mapper, identifiers and group names over [A-Za-z0-9_/] ([plain_op]: every
+   SubRoute argument, struct, method and function identifier of the sequence): every name a
+   registration returned (up to the raw protocol's 255 bytes) arrives unchanged over every
+   protocol and runs the handler it was returned for. *)
+Theorem C10_http_returned_names_reachable_over_wire : forall ops r lg p s n h,
+  run MHTTP init ops = Ok (r, lg) -> forallb plain_op ops = true ->
+  In (s, h, n) (returned_log MHTTP ops) -> (length n <= 255)%nat -> (p = PHttp -> s = CALL) ->
+  wire p s n = WSeen n /\ dispatch_wire p r s n = WDispatched (DRun h false).
+Proof. exact http_returned_names_reachable_over_wire. Qed.
+Print Assumptions C10_http_returned_names_reachable_over_wire.
+
+(* Whatever bytes are asked for: a registered handler runs only if the name that ARRIVED
+   is one its registration returned ... *)
+Theorem C10_dispatch_over_wire_only_under : forall k ops r lg p s n h,
+  run k init ops = Ok (r, lg) ->
+  dispatch_wire p r s n = WDispatched (DRun h false) ->
+  exists n', wire p s n = WSeen n' /\ In (s, h, n') (returned_log k ops).
+Proof. exact dispatch_wire_only_under. Qed.
+Print Assumptions C10_dispatch_over_wire_only_under.
+
+(* ... outside httproto the name that arrives is a prefix of the one asked for, and the
+   whole of it except over the two json protocols ... *)
+Theorem C10_wire_seen_prefix : forall p s n n',
+  p <> PHttp -> wire p s n = WSeen n' ->
+  (exists t, n = n' ++ t) /\ (p <> PJson -> p <> PWsJson -> n' = n).
+Proof. exact wire_seen_prefix. Qed.
+Print Assumptions C10_wire_seen_prefix.
+
+(* ... hence over raw, protobuf, thrift and websocket-protobuf, for ALL names: the handler
+   runs only under a name its registration returned. *)
+Theorem C10_dispatch_wire_transparent : forall k ops r lg p s n h,
+  run k init ops = Ok (r, lg) ->
+  p <> PHttp -> p <> PJson -> p <> PWsJson ->
+  dispatch_wire p r s n = WDispatched (DRun h false) -> In (s, h, n) (returned_log k ops).
+Proof. exact dispatch_wire_transparent. Qed.
+Print Assumptions C10_dispatch_wire_transparent.
+
+(* json (strconv.Quote, then gjson's un-escaping), names of bytes < 0x80: what arrives is
+   the name up to its first byte that Quote writes as \a, \v or \xNN (control bytes other
+   than \b \t \n \f \r, and 0x7f); a name without such a byte arrives whole. *)
+Theorem C10_json_wire : forall n,
+  ascii_only n = true ->
+  wire PJson CALL n = WSeen (take_while json_ok n) /\
+  (forallb json_ok n = true -> wire PJson CALL n = WSeen n).
+Proof. exact (fun n A => conj (wire_json_eq n A) (wire_json_exact n A)). Qed.
+Print Assumptions C10_json_wire.
+
+(* REFUTED for json with such a byte (finding key json-name-truncated): "/test" + NUL is not
+   registered, the router alone answers Not Found, yet over jsonproto and the websocket
+   json sub-protocol the handler registered as "/test" runs. *)
+Theorem C10_json_name_truncated_refuted :
+  exists ops r lg h n,
+    run MHTTP init ops = Ok (r, lg) /\ ascii_only n = true /\
+    (forall h', ~ In (CALL, h', n) (returned_log MHTTP ops)) /\
+    dispatch r CALL n = DNotFound /\
+    dispatch_wire PJson r CALL n = WDispatched (DRun h false) /\
+    dispatch_wire PWsJson r CALL n = WDispatched (DRun h false).
+Proof. exact json_name_truncated. Qed.
+Print Assumptions C10_json_name_truncated_refuted.
+
+(* httproto reads the caller's string as a URI reference (README: "POST /home/test?peer_id=110").
+   When the path of that reference holds no control byte, blank, '?', '#', '%' or ':' and does
+   not begin with "//", and the raw query brings no control byte or '#', the serving peer
+   looks up exactly that path. *)
+Theorem C10_http_wire_uri_path : forall n p q,
+  ascii_only n = true -> url_parse n = UOk p q ->
+  target_safe p = true -> query_safe q = true ->
+  wire PHttp CALL n = WSeen p.
+Proof. exact wire_http_uri_path. Qed.
+Print Assumptions C10_http_wire_uri_path.
+
+(* REFUTED without the guard on the path (finding key http-target-not-escaped): packRequest
+   writes the UNESCAPED path into the request line; "/test%3fx" asks for the path "/test?x",
+   which is not registered, and the handler registered as "/test" runs; "/test%25" ends the
+   session. *)
+Theorem C10_http_target_not_escaped_refuted :
+  (exists ops r lg h n path q,
+    run MHTTP init ops = Ok (r, lg) /\ ascii_only n = true /\ url_parse n = UOk path q /\
+    (forall h', ~ In (CALL, h', path) (returned_log MHTTP ops)) /\
+    dispatch r CALL path = DNotFound /\
+    dispatch_wire PHttp r CALL n = WDispatched (DRun h false)) /\
+  (url_parse (str "/test%25") = UOk (str "/test%") [] /\ wire PHttp CALL (str "/test%25") = WBroken).
+Proof. exact (conj http_target_not_escaped http_target_breaks_session). Qed.
+Print Assumptions C10_http_target_not_escaped_refuted.
+
+(* REFUTED for a receiver that normalises the path it read (path.Clean in Unpack): the plain
+   names "/test/", "/./test", "/x/../test", "/test/." were returned by no registration and
+   get Not Found from the code as it is, but run the handler registered as "/test". *)
+Theorem C10_http_cleaning_receiver_refuted :
+  exists ops r lg h,
+    run MHTTP init ops = Ok (r, lg) /\
+    Forall (fun n => wire_plain n = true /\
+                     (forall h', ~ In (CALL, h', n) (returned_log MHTTP ops)) /\
+                     dispatch_wire PHttp r CALL n = WDispatched DNotFound /\
+                     dispatch_wire_cleaning r n = WDispatched (DRun h false))
+           [str "/test/"; str "/./test"; str "/x/../test"; str "/test/."].
+Proof. exact http_cleaning_receiver_refuted. Qed.
+Print Assumptions C10_http_cleaning_receiver_refuted.
+
+(* A PUSH cannot be packed by httproto; a request that does not arrive runs nothing. *)
+Theorem C10_not_delivered_runs_nothing : forall p r s n,
+  wire p s n = WRefused \/ wire p s n = WBroken -> dispatch_wire p r s n = WNotDelivered.
+Proof. exact dispatch_wire_not_delivered. Qed.
+Print Assumptions C10_not_delivered_runs_nothing.
+
 (* ---- non-vacuity ---- *)
 Definition ex_ops : list op :=
   [ OReg CALL [] (IStruct (str "User") [(str "Get", str "h1"); (str "Set_Name", str "h2")]);
@@ -257,3 +385,33 @@ Example C10_example_not_injective :
   http_mapper (str "aa") (str "Bb") = http_mapper [] (str "Aa_Bb") /\
   rpc_mapper (str "Aa") (str "Bb") = rpc_mapper [] (str "Aa_Bb").
 Proof. exact mapper_not_injective. Qed.
+
+(* the hypotheses of C10_http_wire_uri_path are satisfiable (the README's request); a full URL
+   has an authority part and is outside the model *)
+Example C10_example_http_uri :
+  let n := str "/home/test?peer_id=110" in
+  ascii_only n = true /\ url_parse n = UOk (str "/home/test") (str "peer_id=110") /\
+  target_safe (str "/home/test") = true /\ query_safe (str "peer_id=110") = true /\
+  wire PHttp CALL n = WSeen (str "/home/test") /\
+  wire PHttp CALL (str "http://localhost:9090/home/test?peer_id=110") = WOutside.
+Proof. exact http_uri_example. Qed.
+
+(* the premises of C10_http_returned_names_reachable_over_wire hold of the example sequence *)
+Example C10_example_plain_ops :
+  forallb plain_op ex_ops = true /\
+  exists r lg, run MHTTP init ex_ops = Ok (r, lg) /\
+    In (PUSH, str "h3", str "/v1/admin/x/abc_xyz") (returned_log MHTTP ex_ops) /\
+    dispatch_wire PThrift r PUSH (str "/v1/admin/x/abc_xyz") = WDispatched (DRun (str "h3") false) /\
+    dispatch_wire PHttp r CALL (str "/user/set/name") = WDispatched (DRun (str "h2") false).
+Proof.
+  split; [vm_compute; reflexivity|]. eexists. eexists. split; [vm_compute; reflexivity|].
+  split; [vm_compute; tauto|]. split; vm_compute; reflexivity.
+Qed.
+
+(* wire_plain holds of mapped names, and its "//" guard is needed *)
+Example C10_example_wire_plain :
+  wire_plain (http_mapper (str "/api//v2/") (str "Get_ID__x")) = true /\
+  wire_plain (rpc_mapper (str "Aa.Bb") (str "Get_ID")) = true /\
+  wire PHttp PUSH (str "/home/test") = WRefused /\
+  wire PHttp CALL (str "//test") = WOutside /\ wire PRaw CALL (str "//test") = WSeen (str "//test").
+Proof. vm_compute. repeat split. Qed.
